@@ -49,7 +49,7 @@ def scaled(B, y, factors, frame_axis, name):
     return B.derived(name, out, np.complex128)
 
 
-def normalisation_instance(kind, N, D):
+def normalisation_instance(kind, N, D, zero_frame=False):
     """normalised(c * y) * |c| == c * normalised(y)   (c complex non-zero; c > 0 real for 'vmf': equality)"""
     from pb_bss.distribution import complex_angular_central_gaussian as cacg, complex_watson as cw
 
@@ -69,7 +69,16 @@ def normalisation_instance(kind, N, D):
         c = [B.cplx('c_%d' % n, ()) for n in range(N)]
         for n in range(N):
             B.require('gain-nonzero', sp.gt(sp.abs2(c[n]), 0.0))
-        return {'y': y, 'cy': scaled(B, y, c, 0, 'cy'), 'c': c}
+        cy = scaled(B, y, c, 0, 'cy')
+        if zero_frame:
+            # one exactly silent frame next to the others (zero padding / a muted point): it stays zero, the others are projected as before
+            def pad(a, name):
+                out = np.empty((N + 1, D), dtype=object)
+                out[:N] = cells(a)
+                out[N] = 0.0
+                return B.derived(name, out, np.complex128)
+            return {'y': y, 'cy': cy, 'c': c, 'y_in': pad(y, 'y0'), 'cy_in': pad(cy, 'cy0')}
+        return {'y': y, 'cy': cy, 'c': c}
 
     def norm(y):
         if kind == 'cacg':
@@ -79,13 +88,17 @@ def normalisation_instance(kind, N, D):
         return y / np.maximum(np.linalg.norm(y, axis=-1, keepdims=True), np.finfo(y.dtype).tiny)
 
     def call(inp):
-        return {'z': norm(inp['y']), 'zc': norm(inp['cy'])}
+        return {'z': norm(inp.get('y_in', inp['y'])), 'zc': norm(inp.get('cy_in', inp['cy']))}
 
     def ensures(sp, inp, out):
         z, zc = cells(out['z']), cells(out['zc'])
-        yield 'shapes', sp._f(z.shape == (N, D) and zc.shape == (N, D))
-        if z.shape != (N, D) or zc.shape != (N, D):
+        NN = N + 1 if zero_frame else N
+        yield 'shapes', sp._f(z.shape == (NN, D) and zc.shape == (NN, D))
+        if z.shape != (NN, D) or zc.shape != (NN, D):
             return
+        if zero_frame:
+            for d in range(D):
+                yield 'silent-frame-stays-zero[%d]' % d, sp.and_(sp.eq(z[N, d], 0.0), sp.eq(zc[N, d], 0.0))
         yv = cells(inp['y'])
         for n in range(N):
             c = inp['c'][n]
@@ -101,7 +114,7 @@ def normalisation_instance(kind, N, D):
 
     func = {'cacg': 'complex_angular_central_gaussian:normalize_observation', 'watson': 'complex_watson:normalize_observation',
             'vmf': 'von_mises_fisher:VonMisesFisher.log_pdf(normalisation)'}[kind]
-    return Instance('C04', DN + func, '%s-N%dD%d' % (kind, N, D), make, call, ensures, timeout=40.0, definedness=False)
+    return Instance('C04', DN + func, '%s-N%dD%d%s' % (kind, N, D, '-with-a-silent-frame' if zero_frame else ''), make, call, ensures, timeout=40.0, definedness=False)
 
 
 def unit_invariance_instance(kind, N, D, K=2, minus_one=False):
@@ -327,6 +340,8 @@ def instances(tier):
     out.append(normalisation_instance('watson', 1, 2))
     out.append(normalisation_instance('vmf', 2, 2))
     out.append(normalisation_instance('cacg', 1, 3))
+    out.append(normalisation_instance('watson', 1, 2, zero_frame=True))
+    out.append(normalisation_instance('cacg', 1, 2, zero_frame=True))
     for kind in ('cacg-logpdf', 'cacg-fit', 'cacgmm-estep', 'watson-logpdf', 'watson-fit', 'bingham-logpdf'):
         out.append(unit_invariance_instance(kind, 2, 2))
         out.append(unit_invariance_instance(kind, 2, 2, minus_one=True))
